@@ -116,6 +116,11 @@ Section Checkers.
     forallb (fun k => let mrow := map (fun x => s_pow x k) nodes in
                       forallb (shape1_q_ok (length nodes) tn td k mrow) qrecs) (seq 0 (S p)).
 
+  (* Lebesgue sums of the 1-D shape tables: sum_a |N_a(s_q)| <= ln/ld at every record (amplification of the placement
+     error of the edge nodes in the interpolated edge points) *)
+  Definition lebesgue1_ok (qrecs : list qrec1) (ln ld : Z) : bool :=
+    forallb (fun r : qrec1 => s_leb b (s_scale ld (s_sum b (map s_abs (fst (snd r))))) (ln, 0)) qrecs.
+
   (* face-node layout of the 2-D parent element against the 1-D parent element:
      vertex nodes sit at (1,0), (0,1), (0,0); face f runs from vertex f to vertex f+1 and its a-th node is
      (1 - s_a) V_f + s_a V_{f+1} for the 1-D nodes s_a (within tn/td per coordinate) *)
@@ -229,6 +234,16 @@ Section Geo.
     let tx := fst x1 - fst x0 in let ty := snd x1 - snd x0 in
     let jac := nsqrt (tx * tx + ty * ty) in
     ((tx / jac, ty / jac), (ty / jac, - tx / jac), jac).
+  (* FunctionSpace.interpolate_nodal_field_on_edge applied to the coordinate field (edgeShapes.values.T @ edgeCoords, one
+     row N of shape values per 1-D quadrature point), and FunctionSpace.integrate_function_on_edge with
+     func(u, X, n) = F1(X) n_x + F2(X) n_y:  dot(integrand, jac * wgauss), (n, jac) from compute_edge_vectors *)
+  Definition edge_pt (N : list T) (Xn : list (T * T)) : T * T := (ndot N (map fst Xn), ndot N (map snd Xn)).
+  Definition edge_flux_sum (F1 F2 : T * T -> T) (A B : T * T) (Xn : list (T * T)) (Ns : list (list T)) (ws : list T) : T :=
+    let nj := edge_vectors A B in
+    let n := snd (fst nj) in let jac := snd nj in
+    ndot (map (fun N => let X := edge_pt N Xn in F1 X * fst n + F2 X * snd n) Ns) (map (fun w => jac * w) ws).
+  (* monomial integrands x^a y^c used by the correspondence stream *)
+  Definition mono_fn (a c : nat) (X : T * T) : T := npow (fst X) a * npow (snd X) c.
   (* interpolation and gradient of a nodal field at one quadrature point *)
   Definition interp (N u : list T) : T := ndot N u.
   Definition grad_at (v0 v1 v2 : T * T) (Gx Gy u : list T) : T * T :=
